@@ -339,7 +339,15 @@ def cross(case, s, fwd, rev, role, labels, resume=False):
             return bad("interop-resumption-flag-differs:" + where,
                        "openssl reused=%r tlslite resumed=%r" % (
                            reused, conn.resumed), labels=labels)
-        labels.append("resumed" if reused else "not-resumed")
+        if not reused:
+            # both implementations resume this configuration among
+            # themselves (session id, ticket or TLS 1.3 PSK all on offer)
+            return bad("interop-resumption-not-honoured:" + where,
+                       "second connection completed as a full handshake "
+                       "(openssl session_reused=%r, tlslite resumed=%r)" % (
+                           reused, conn.resumed), labels=labels)
+        labels.append(("resumed:" if reused else "not-resumed:") + role +
+                      (":13" if v == (3, 4) else ":12-"))
     # data both ways
     n1, n2 = case.get("sizes", [100, 20000])
     if s.cipher == "null" and n1 == 0:
